@@ -185,6 +185,16 @@ func checkScan(s string, l literal, parsed d128.Decimal, m d128.RoundingMode) *V
 	if !ref.SameVal(g, w) {
 		return violf("fmt.Sscan(%s) under DefaultRoundingMode=%v = %s, Parse gives %s", abbr(strconv.Quote(s)), m, g, w)
 	}
+	// the same through Sscanf with one of the verbs Scan documents (picked by the case, so that all seven occur)
+	verb := "eEfFgGv"[hashString(s)%7]
+	d2 := prior(hashString(s) + 11*uint64(m))
+	n, err = fmt.Sscanf(s, "%"+string(verb), &d2)
+	if err != nil || n != 1 {
+		return violf("fmt.Sscanf(%s, %%%c) under DefaultRoundingMode=%v: n=%d err=%v", abbr(strconv.Quote(s)), verb, m, n, err)
+	}
+	if g2 := ref.Decode(d2); !ref.SameVal(g2, w) {
+		return violf("fmt.Sscanf(%s, %%%c) under DefaultRoundingMode=%v = %s, Parse gives %s", abbr(strconv.Quote(s)), verb, m, g2, w)
+	}
 	return nil
 }
 
